@@ -144,45 +144,84 @@ pub fn sign(x: i128) -> &'static str {
     }
 }
 
+/// what the harness can say about a TWAP of the closing notional
+#[derive(Clone, Copy, Debug, PartialEq, Eq)]
+pub enum TwapRef {
+    Value(U),
+    /// a reserve record with a positive weight in the window cannot fill the trade at all (closing a short needs more
+    /// base than that record's reserve held): the average cost is unbounded, so the TWAP valuation is never the one of
+    /// smaller magnitude
+    Unbounded,
+    /// arithmetic out of the reference's range
+    Unknown,
+}
+
 /// The 15-minute (or any interval) time-weighted average of what closing `size` would exchange, computed from the
 /// harness's own per-block record of the vAMM's reserves (one record per block with a trade, holding the block's final
-/// reserves, plus the reserves at deployment). Each record counts from its block time to the next record's; the average
-/// is over the interval, or over the whole history when that is shorter. None: arithmetic out of range.
-pub fn twap_output_ref(recs: &[crate::run::PriceRec], dir: Dir, size: U, interval: u64, now: u64, d: U) -> Option<U> {
+/// reserves, plus the reserves at deployment). Each record counts from its block time to the next record's; a record
+/// that was in effect for no time at all has no part in the average. The average is over the interval, or over the
+/// whole history when that is shorter.
+pub fn twap_output_ref(recs: &[crate::run::PriceRec], dir: Dir, size: U, interval: u64, now: u64, d: U) -> TwapRef {
+    match twap_output_inner(recs, dir, size, interval, now, d) {
+        Ok(Some(x)) => TwapRef::Value(x),
+        Ok(None) => TwapRef::Unknown,
+        Err(()) => TwapRef::Unbounded,
+    }
+}
+
+fn twap_output_inner(recs: &[crate::run::PriceRec], dir: Dir, size: U, interval: u64, now: u64, d: U) -> Result<Option<U>, ()> {
     let n = recs.len();
     if n == 0 {
-        return None;
+        return Ok(None);
     }
-    let price = |i: usize| curve_output(dir, size, recs[i].q, recs[i].b, d);
+    // Err: that record cannot fill the trade; Ok(None): out of range
+    let price = |i: usize| -> Result<Option<U>, ()> {
+        if dir == Dir::Remove && recs[i].b <= size {
+            return Err(());
+        }
+        Ok(curve_output(dir, size, recs[i].q, recs[i].b, d))
+    };
+    macro_rules! some {
+        ($e:expr) => {
+            match $e {
+                Some(x) => x,
+                None => return Ok(None),
+            }
+        };
+    }
     let cur = n - 1;
     if interval == 0 {
         return price(cur);
     }
-    let base = now.checked_sub(interval)?;
+    let base = some!(now.checked_sub(interval));
     if n == 1 || recs[cur].time <= base {
         return price(cur);
     }
     let mut prev_t = recs[cur].time;
-    let mut period = (now.checked_sub(prev_t)?) as u128;
-    let mut weighted = price(cur)?.checked_mul(period)?;
+    let mut period = some!(now.checked_sub(prev_t)) as u128;
+    let mut weighted: U = if period == 0 { 0 } else { some!(some!(price(cur)?).checked_mul(period)) };
     let mut i = cur;
     loop {
         if i == 0 {
             if period == 0 {
-                return None;
+                return Ok(None);
             }
-            return Some(weighted / period);
+            return Ok(Some(weighted / period));
         }
         i -= 1;
-        let p = price(i)?;
         if recs[i].time <= base {
-            weighted = weighted.checked_add(p.checked_mul((prev_t - base) as u128)?)?;
+            let dt = (prev_t - base) as u128;
+            if dt != 0 {
+                weighted = some!(weighted.checked_add(some!(some!(price(i)?).checked_mul(dt))));
+            }
             break;
         }
         let dt = (prev_t - recs[i].time) as u128;
-        weighted = weighted.checked_add(p.checked_mul(dt)?)?;
+        if dt != 0 {
+            weighted = some!(weighted.checked_add(some!(some!(price(i)?).checked_mul(dt))));
+        }
         period += dt;
         prev_t = recs[i].time;
     }
-    Some(weighted / interval as u128)
+    Ok(Some(weighted / interval as u128))
 }
